@@ -451,6 +451,7 @@ class DznJsonAst:
 
     def process(self) -> FileContents:
         """"Start processing the preloaded Dezyne JSON AST and return the FileContents."""
+        self._file_contents = FileContents()  # start afresh, do not accumulate previous results
         root = parse_root(self.ast)
         for element in root.elements:
             self.parse_element(element, self._ns_trail)
